@@ -1,6 +1,7 @@
 (* C08 property theorems: statements only, each closed by [exact]. *)
 From Boltons Require Import Lib.Prelude Lib.C08_Py Spec.C08_Spec Model.C08_Model
-  Proofs.C08_Machine Proofs.C08_Tree Proofs.C08_Cycle Proofs.C08_Paths Proofs.C08_Witness.
+  Proofs.C08_Machine Proofs.C08_Tree Proofs.C08_Inject Proofs.C08_Cycle Proofs.C08_Paths
+  Proofs.C08_Copy Proofs.C08_Witness.
 
 (* The stack machine (work stack + exit sentinels + id registry + new_items_stack
    + path) IS the bottom-up recursion: for every input term (shared and cyclic
@@ -30,6 +31,17 @@ Theorem C08_tree : forall (visit : option visit_fn) defs id k items,
     /\ evisits lg = calls_opt visit [] (erase root).
 Proof. exact machine_tree. Qed.
 Print Assumptions C08_tree.
+
+(* the same without hypotheses: every pure nested value [t], taken as a graph of
+   distinct objects; [erase] forgets the identities of the result *)
+Theorem C08_tree_val : forall (visit : option visit_fn) defs k items,
+  let t := VNode k items in
+  exists v m lg,
+    remap visit defs (inject t) = Done v m lg
+    /\ erase v = rebuild (vfun visit) [] t
+    /\ evisits lg = calls_opt visit [] t.
+Proof. exact machine_tree_val. Qed.
+Print Assumptions C08_tree_val.
 
 Example C08_tree_inhabited :
   is_tree ex_tree = true /\ NoDup (ids ex_tree) /\ length (ids ex_tree) = 4.
@@ -62,6 +74,31 @@ Theorem C08_cycle_tuple_refuted :
                     = Done (ONode 0 KTuple [(KI 0, ONode 1 KList [(KI 0, OBlank KTuple)])]) m lg.
 Proof. exact tuple_cycle_witness. Qed.
 Print Assumptions C08_cycle_tuple_refuted.
+
+(* DEFAULT CALLBACKS: the result is an equal deep copy.  "input container j |->
+   the new object registered for j" is a graph isomorphism: same kind and, item
+   by item, the same key and the same leaf / the new counterpart of the same
+   child object - so shared objects stay shared and (list/dict-entered) cycles
+   are reproduced.  (In the model no output object is an input object by
+   construction; on the code the harness checks identity of every output
+   container against the input's.)
+   _partial: stated for graphs without set/frozenset nodes - a rebuilt set holds
+   its members in canonical order, so for sets the item-by-item statement holds
+   up to the order of members only (checked on the code by `holds`, not proved). *)
+Theorem C08_default_copy_partial : forall id k items,
+  let root := ONode id k items in
+  NoDup (ids root) -> wf_keys root -> no_sets root -> imm_backref [] root = false ->
+  exists v m lg,
+    remap None (collect_defs root) root = Done v m lg
+    /\ oref_of v = RObj id /\ t_get m id = Some v
+    /\ forall j kj itemsj, In (j, ONode j kj itemsj) (collect_defs root) ->
+         exists items', t_get m j = Some (ONode j kj items') /\ shal items' = shal itemsj.
+Proof. exact machine_default_copy. Qed.
+Print Assumptions C08_default_copy_partial.
+
+Example C08_default_copy_inhabited :
+  NoDup (ids ex_cyclic) /\ wf_keys ex_cyclic /\ no_sets ex_cyclic /\ imm_backref [] ex_cyclic = false.
+Proof. exact ex_copy_ok. Qed.
 
 (* every (path, value) research reports for a nested item is retrievable with
    get_path (and get_path returns that very object) - for every input graph
